@@ -10,7 +10,7 @@ import vlib
 PROP = "C12"
 
 RULE = ("one evaluation = one schedule of one scenario executed on a fresh Resolver under the cooperative scheduler "
-        "(21 fixed scenario families explored depth-first and with seeded random schedules inside equal time slices, plus "
+        "(23 fixed scenario families explored depth-first and with seeded random schedules inside equal time slices, plus "
         "seeded random scenarios with 1-3 subscribers on 1-2 triggers: same / different input, different forwarded headers, "
         "filters, failing hooks / Start / Write / Flush / Heartbeat, hook emissions, synchronous subscribers, heartbeat "
         "ticks, shutdown, sources that call the updater from two goroutines, histories in which nobody is asked to leave) "
@@ -19,7 +19,10 @@ RULE = ("one evaluation = one schedule of one scenario executed on a fresh Resol
         "Heartbeat / AsyncErrorWriter.WriteError park inside the call, i.e. while the real code holds writeMu), so client "
         "operations, joins, teardown and further updater calls are scheduled DURING a write. "
         "Families 18-20: the subscriber that CREATED a shared trigger (synchronous or asynchronous) leaves by cancellation of "
-        "its request context while one or two others stay, the source goes on emitting / completes / fails / says Done. "
+        "its request context while one or two others stay, the source goes on emitting / completes / fails / says Done; "
+        "21: a FAILED update (event is not valid JSON) is inside WriteError while the client unsubscribes / a heartbeat "
+        "ticks; 22: a synchronous subscriber whose Flush fails must be completed (a Flush / Heartbeat error RETURNED on a "
+        "subscriber's own writer is an implementation-side premise of the quiescence clauses). "
         "Besides the correspondence, three clauses are evaluated on the implementation's log ALONE for every run (also after "
         "the correspondence broke), for trigger keys whose membership is unambiguous from the observables (one Start per key, "
         "no scripted failure): an Update(e) that returned while s was subscribed and not asked to leave wrote e to s "
